@@ -251,6 +251,19 @@ impl FixtureDatabase {
         hasher.finish()
     }
 
+    /// Check if a file lives in a `site-packages` directory.
+    /// For files inside the workspace only the part below the workspace root counts, so
+    /// a project that itself lives under a directory named `site-packages` is not
+    /// classified as third-party wholesale.
+    pub(crate) fn is_site_packages_path(&self, file_path: &Path) -> bool {
+        let workspace = self.workspace_root.lock().unwrap();
+        let relevant = workspace
+            .as_ref()
+            .and_then(|ws| file_path.strip_prefix(ws).ok())
+            .unwrap_or(file_path);
+        relevant.to_string_lossy().contains("site-packages")
+    }
+
     /// Check if a file path is inside an editable install that is NOT within the workspace.
     /// Returns true if the file is from an external editable install (third-party).
     pub(crate) fn is_editable_install_third_party(&self, file_path: &Path) -> bool {
